@@ -430,7 +430,9 @@ void LogsumHmmLikelihood::computeDForward_() const
       {
         num2 = dLogLikelihood_[i - 1] * trans.getCol(j);
 
-        dLogLikelihood_[i][j] = (*dEmissions)[j] / (*emissions)[j] + VectorTools::sumExp(num, num2) / VectorTools::sumExp(num, trans.getCol(j));
+        // When every predecessor of state j has underflowed relative to the best state, the state has no weight at this site:
+        double den = VectorTools::sumExp(num, trans.getCol(j));
+        dLogLikelihood_[i][j] = (*dEmissions)[j] / (*emissions)[j] + (den > 0 ? VectorTools::sumExp(num, num2) / den : 0.);
       }
     }
     else // Reset markov chain:
@@ -545,7 +547,7 @@ void LogsumHmmLikelihood::computeD2Forward_() const
         num3 = (dLogLikelihood_[i - 1] * dLogLikelihood_[i - 1] + d2LogLikelihood_[i - 1]) * trans.getCol(j);
 
         d2LogLikelihood_[i][j] = (*d2Emissions)[j] / (*emissions)[j] - pow((*dEmissions)[j] / (*emissions)[j], 2)
-            + VectorTools::sumExp(num, num3) / den - pow(VectorTools::sumExp(num, num2) / den, 2);
+            + (den > 0 ? VectorTools::sumExp(num, num3) / den - pow(VectorTools::sumExp(num, num2) / den, 2) : 0.);
       }
     }
     else // Reset markov chain:
